@@ -57,6 +57,20 @@ TEXT = {
          "binomial distribution exactly (big integers in TLA+ / BigInteger accelerator checked by MC_Binomial), then checks pointwise and mean coverage against the "
          "specification's slack functions. The probability is summed over all outcomes, not sampled.",
          "TLC trace validation with carried rows; exact binomial sums in the TLA+ kernel"),
+ "C01": ("mean", "The arithmetic-mean interval is specified over exact dyadic arithmetic in TLA+ (Mean.tla): TLC computes the exact sufficient statistics of every generated "
+         "run-length sample (up to 10^6 observations) and accepts a returned bound only if (n b - S1)^2 (n-1) = c^2 (n S2 - S1^2) within the conditioning-aware tolerance, "
+         "c^2 ranging over the certified enclosure of the t / normal quantile, with the sign of c; statistics accessors and all call styles (bit for bit) are judged as well.",
+         "TLC generator + trace validation with exact arithmetic in TLA+ against reference quantile tables"),
+ "C04": ("mean", "Paired: exact moments of the exact differences, bit-identical to the arithmetic interval of the differences, DifferentSampleSizes with both lengths. Unpaired: "
+         "exact rational standard error and effective degrees of freedom (Welch-type, documented variant) computed by TLC; the critical value must lie between the t-table rows "
+         "of floor and ceil of the dof (designed families give integer dof); exchanging the samples must mirror the interval bit for bit with upper and lower exchanged.",
+         "TLC generator + trace validation with exact rational arithmetic in TLA+; relational clause over exchanged calls"),
+ "C05": ("mean", "Geometric / harmonic producers are specified as compositions with the arithmetic producer in the transformed space; ln/exp are uninterpreted (sampled), reciprocals "
+         "are checked exactly. TLC validates bounds, means, both standard-error transforms, H <= G <= A, and - on every short program with non-positive values - rejection with the value and an unchanged state.",
+         "TLC generator + trace validation (uninterpreted transcendental functions, exact reciprocals) + BFS program enumeration for rejections"),
+ "C06": ("mean", "Probe samples with exactly known standard error for every degrees-of-freedom row of the reference table x all levels x kinds: the implied critical value must lie in the "
+         "enclosure of the true quantile (tables generated at 60 digits, axioms incl. the exact nu = 2 closed form checked by TLC); z of proportion intervals by the root enclosure.",
+         "TLC trace validation against reference tables whose axioms are model-checked"),
 }
 PENDING_REASON = "check not built yet in this round (planned, see DESIGN.md section 4); not claimed"
 
@@ -104,6 +118,9 @@ def main():
             {"name": "proportion", "path": "spec/Proportion.tla spec/RefTables.tla spec/MC_Tables.tla spec/Gen_Proportion.tla spec/Trace_Proportion.tla spec/tables tools/gen_tables.py",
              "serves_properties": ["C02", "C17", "C12", "C03"],
              "kind_free_text": "score-polynomial root enclosures over exact dyadic arithmetic; reference quantile tables with axioms; relational validator"},
+            {"name": "mean", "path": "spec/Mean.tla spec/Gen_Mean.tla spec/Trace_Mean.tla spec/Rng.tla spec/RefTables.tla",
+             "serves_properties": ["C01", "C04", "C05", "C06", "C10", "C16"],
+             "kind_free_text": "exact statistics of run-length samples and bound judges over dyadic arithmetic; reference tables; grouped relational clauses"},
             {"name": "interval", "path": "spec/Interval.tla spec/IntervalSession.tla spec/MC_Interval.tla spec/Gen_Interval.tla spec/Trace_Interval.tla",
              "serves_properties": ["C07", "C13", "C14", "C15", "C19"],
              "kind_free_text": "TLA+ value algebra of intervals as closed sets; TLC model check + generator + trace validator"},
